@@ -230,6 +230,23 @@ PROPERTIES = {
                      "floats as reals"],
         explanation="the real function executed on z3 terms with defining constraints; polynomial identities discharged by z3's non-linear real arithmetic",
     ),
+    "C09": dict(
+        engines="AZ",
+        claim="Libxc is not installed, so agreement with Libxc is decided against spec functions: the published closed forms of LDA exchange, PW92 (both "
+              "parameter sets), VWN5, PBE / PBEsol exchange and correlation, written independently of the repository. The energy density of the real "
+              "functional (through the real get_xc) is proved equal to the spec for all densities, polarisations and non-parallel spin gradients (the "
+              "potentials follow from C02). The Libxc bridge (pylibxc and PySCF paths) is executed on arrays of distinct symbols with a stand-in for the "
+              "external library that checks its documented array conventions: every component is handed over and returned in the right slot. The Chachiyo "
+              "and finite-temperature functionals and SCF-level interchangeability (needs Libxc) are not covered.",
+        note="the external libraries' array conventions are an assumed contract; the spec functions are part of the trusted base",
+        modules=["contracts.c09"],
+        level="proof",
+        trusted_base=["CPython (executes the traced control flow)", "in-house exact-algebra normaliser (engine A)", "the spec functions in contracts/c09.py (published closed forms)"],
+        assumptions=["pylibxc: rho / sigma / tau flattened point-major with spin (uu, ud, dd) fastest; outputs zk (N,1), vrho (N,Nspin), vsigma (N,1|3), vtau (N,Nspin)",
+                     "pyscf eval_xc: rho[(spin,) component, point] with components (n, dx, dy, dz, lapl, tau); vxc = (vrho (N,Nspin), vsigma (N,1|3), vlapl, vtau)",
+                     "floats as reals; generic inputs"],
+        explanation="exact-algebra comparison of the traced energy density with an independent closed form; symbolic data-movement check of the bridge",
+    ),
     "C10": dict(
         engines="ZB",
         claim="The real get_Eewald is executed with symbolic positions and charges on concrete cells (cubic, triclinic; 2 and 3 atoms; erfc / cos / exp / "
